@@ -277,3 +277,37 @@ def check(prog, run):
                        "with %s the printer emits a definition for every member of %s, and %s (%s) raises for any object of such a "
                        "name that is not the member itself: the printed SDL cannot be built back into a schema"
                        % (cond or "some option", coll, f.qualname, f.where(g)))
+
+    # ---- P6 one-sided length comparisons
+    r = run.rule("P6", "in the print closure, length tests against one bound are complementary: when a function passes text through "
+                       "unchanged if `len(x) <= B` and breaks it if `len(y) > B` the case len == B belongs to exactly one side; a pair "
+                       "`<` / `>` against the same bound leaves text of exactly that length neither fitting nor overflowing (it is "
+                       "re-flowed although nothing needs wrapping, which changes descriptions on the way through SDL)", 1)
+    for f in fns:
+        per_bound = {}
+        for n in own_nodes(f.node):
+            if isinstance(n, ast.Compare) and len(n.ops) == 1 and isinstance(n.left, ast.Call) and isinstance(n.left.func, ast.Name) \
+                    and n.left.func.id == "len" and isinstance(n.comparators[0], ast.Name) and isinstance(n.ops[0], (ast.Lt, ast.LtE, ast.Gt, ast.GtE)):
+                per_bound.setdefault(n.comparators[0].id, []).append(n)
+        for bound, cmps in per_bound.items():
+            ops = {type(c.ops[0]).__name__ for c in cmps}
+            if len(cmps) < 2:
+                continue
+            r.instance("%s: len(...) vs %s with %s" % (f.qualname, bound, sorted(ops)))
+            fits = ops & {"Lt", "LtE"}
+            over = ops & {"Gt", "GtE"}
+            if fits and over and not ((fits == {"LtE"} and over == {"Gt"}) or (fits == {"Lt"} and over == {"GtE"})):
+                run.report(r, "%s:%s:boundary(%s)" % (f.module.name, f.qualname, bound), f.where(cmps[0]),
+                           "length tests against `%s` use %s: a text of exactly that length is classified by neither / both of the "
+                           "fitting and overflowing tests" % (bound, " and ".join("`%s`" % " ".join(ast.unparse(c).split()) for c in cmps)))
+
+    # ---- P7 the integer-literal pattern used to render ID / custom scalar defaults
+    r = run.rule("P7", "the pattern deciding that a string default (ID, custom scalar) is rendered as an integer literal accepts exactly "
+                       "/-?(0|[1-9][0-9]*)/ (Python regex semantics modelled, incl. `$` matching before a trailing newline): any other "
+                       "string rendered as a number is read back as a different default", 1)
+    import string
+    from .. import regexrule, rx
+    D = frozenset(string.digits)
+    int_ref = rx.cat(rx.opt(rx.sym(frozenset({"-"}))), rx.alt(rx.sym(frozenset({"0"})), rx.cat(rx.sym(D - {"0"}), rx.star(rx.sym(D)))))
+    regexrule.check(prog, run, r, "py_gql.utilities.ast_node_from_value", "_INT_RE", int_ref, "an integer literal",
+                    "the printed default is read back as a different value")
